@@ -1,10 +1,18 @@
 (* C20 - The v3 transaction protocol keeps its specified order and consistency.
-   Statements only; proofs live in Proofs/Proto3Proofs.v and Proofs/Proto3Witness.v.
+   Statements only; proofs live in Proofs/Proto3Proofs.v, Proofs/Proto3Witness.v and Proofs/Proto3Order*.v.
+   PROVED, unbounded (all reachable worlds): commit-before-apply, ordinal monotonicity, and the whole first conjunct of
+   Order of spec/Config.tla - C20_order (reach w -> order_ok (w_hist w) = true) with its readable consequences
+   C20_changes_in_log_order, C20_ordinals_follow_log_order, C20_rollbacks_reverse(_explicit); the proof goes through the
+   frontier invariant C20_frontier_invariant (Proofs/Proto3OrderBase.v: SInv + HInv, 28 conjuncts relating the Committed /
+   Applied cursors to the phase states of all transactions and to the history).
+   BOUNDED only (depth 7): the blocking rule for failed / aborted applies and Consistency (C20_safety_bounded_partial).
+   REFUTED for the code as it is: Consistency and termination (C20_*_refuted).
    reach w = w is the result of ANY finite sequence of labels (append change, rollback request, reconcile of a
    transaction / the configuration / the mastership with any oracle and any crash point, topology and connection
    changes, device restart) from the empty world. *)
 From Coq Require Import List NArith Bool Lia.
-From OC Require Import Model.Proto3 Spec.Tla3 Proofs.Proto3Proofs Proofs.Proto3Witness.
+From OC Require Import Model.Proto3 Spec.Tla3 Proofs.Proto3Proofs Proofs.Proto3Witness
+  Proofs.Proto3OrderBase Proofs.Proto3OrderStep Proofs.Proto3OrderThm.
 Import ListNotations.
 Open Scope N_scope.
 
@@ -23,8 +31,60 @@ Theorem C20_ordinal_mono : forall w l c c',
 Proof. exact committed_ordinal_step. Qed.
 Print Assumptions C20_ordinal_mono.
 
-(* BOUNDED (the general inductive proof of Order is missing: it needs the frontier invariant that relates
-   Committed.{Change,Target,Index} / Applied.{Ordinal,Target,Index} to the phase states of all transactions):
+(* PROVED for every reachable world: the frontier invariant.  Inv w = SInv /\ HInv over (get_tx w, number of transactions,
+   Committed cursor, Applied cursor, history): Committed.Index = Committed.Change; transactions above Change + 1 are PENDING,
+   the one at Change + 1 is PENDING or (IN_PROGRESS / FAILED with Committed.Target naming it), those up to Change are
+   COMPLETE / FAILED (or the one at Change is IN_PROGRESS with its configuration write done); a rollback commit that left
+   PENDING belongs to the transaction at Committed.Index with Committed.Target = its rollback index; ordinals of committed
+   changes are positive, bounded by Committed.Ordinal and strictly increasing in the log index, a committed rollback holds the
+   top ordinal; a change apply IN_PROGRESS is the one Applied.Target names with Applied.Ordinal just below (or equal, after its
+   configuration write) its ordinal; COMPLETE / ABORTED / FAILED applies are at most one above Applied.Ordinal; a rollback
+   apply IN_PROGRESS has its commit COMPLETE and Applied.Target = its rollback index; every completed change commit in the
+   history has index <= Committed.Change, every committed change has its completion event, every completed change apply in
+   the history belongs to a committed change with ordinal <= Applied.Ordinal; and the history is ordered. *)
+Theorem C20_frontier_invariant : forall w, reach w -> Inv w.
+Proof. exact Inv_reach. Qed.
+Print Assumptions C20_frontier_invariant.
+
+(* PROVED for every reachable world (all label sequences, all crash prefixes, all oracles): the first conjunct of Order of
+   spec/Config.tla - every COMPLETE event of the history is an ordered change commit / change apply / rollback commit /
+   rollback apply with respect to the events before it. *)
+Theorem C20_order : forall w, reach w -> order_ok (w_hist w) = true.
+Proof. exact order_reach. Qed.
+Print Assumptions C20_order.
+
+(* ... hence: change commits complete in log-index order and change applies complete in log-index order (p = StCommit / StApply) *)
+Theorem C20_changes_in_log_order : forall w, reach w ->
+  forall p h1 e1 h2 e2 h3, w_hist w = h1 ++ e1 :: h2 ++ e2 :: h3 ->
+  is_ev PhChange p e1 = true -> is_ev PhChange p e2 = true -> e_index e1 < e_index e2.
+Proof. exact changes_in_log_order_reach. Qed.
+Print Assumptions C20_changes_in_log_order.
+
+(* ... the ordinal handed out at commit, which sequences the applies, grows with the log index *)
+Theorem C20_ordinals_follow_log_order : forall w, reach w ->
+  forall j t k u, get_tx w j = Some t -> get_tx w k = Some u -> t_cc t = Complete -> t_cc u = Complete -> j < k ->
+  t_cord t < t_cord u.
+Proof. exact ordinals_follow_log_order_reach. Qed.
+Print Assumptions C20_ordinals_follow_log_order.
+
+(* ... rollback commits / applies complete in reverse order of the changes they undo: a completed rollback of stage p is an
+   IsOrderedRollback of Config.tla at its position - spelled out: its change was completed before it, and every completed
+   stage-p change with a larger index before it has since been followed by a stage-p rollback event of that index *)
+Theorem C20_rollbacks_reverse : forall w, reach w ->
+  forall p h1 e h2, w_hist w = h1 ++ e :: h2 -> is_ev PhRollback p e = true -> ordered_rollback p h1 e = true.
+Proof. exact rollbacks_reverse_reach. Qed.
+Print Assumptions C20_rollbacks_reverse.
+
+Theorem C20_rollbacks_reverse_explicit : forall w, reach w ->
+  forall p h1 e h2, w_hist w = h1 ++ e :: h2 -> is_ev PhRollback p e = true ->
+  (exists x, In x h1 /\ e_phase x = PhChange /\ is_complete x = true /\ e_index x = e_index e) /\
+  (forall l1 x l2, h1 = l1 ++ x :: l2 -> is_ev PhChange p x = true -> e_index e < e_index x ->
+     exists k, In k l2 /\ e_phase k = PhRollback /\ e_stage k = p /\ e_index k = e_index x).
+Proof. exact rollbacks_reverse_explicit_reach. Qed.
+Print Assumptions C20_rollbacks_reverse_explicit.
+
+(* BOUNDED (Order is proved above without bound; what is still only bounded here is the blocking rule for failed / aborted
+   applies and Consistency, which the code violates in general - see the refutations below):
    every label sequence of length <= 7 over append / rollback of the committed revision / reconcile of transactions
    1..2 {complete, crash after the first write, plugin rejects, device refuses} from a healthy single-path
    configuration keeps Order (changes in log order, rollbacks in reverse order), commit-before-apply on the event
